@@ -514,6 +514,57 @@ func prefixKeys(r *sim.Replica, prefix string) map[string]bool {
 	return out
 }
 
+// ---- exclusions owned by other properties, honoured by construction ---------------------------
+
+// validatorOf returns the validatorAddress member of a staking transaction's payload.
+func validatorOf(tx txgen.Tx) string {
+	var raw struct {
+		Data []byte `json:"data"`
+	}
+	if json.Unmarshal(tx.Bytes, &raw) != nil {
+		return ""
+	}
+	var m struct {
+		ValidatorAddress string
+	}
+	_ = json.Unmarshal(raw.Data, &m)
+	return m.ValidatorAddress
+}
+
+// applyExclusions replaces transactions that known findings of other properties exclude:
+// STAKE:zero-power-record (C11: a STAKE to a record of power 0 is lost when the block end deletes
+// the record; the validator later gets negative power and the fee distribution kills the process).
+func applyExclusions(h *run.H, g *hist.Gen, txs []txgen.Tx) []txgen.Tx {
+	var zero map[string]bool
+	for i, tx := range txs {
+		if tx.Kind != "STAKE" {
+			continue
+		}
+		if zero == nil {
+			zero = map[string]bool{}
+			for _, r := range g.W.ValRecs() {
+				if r.Power <= 0 {
+					zero[r.Address.String()] = true
+				}
+			}
+		}
+		if zero[validatorOf(tx)] && h.Excluded("STAKE:zero-power-record") {
+			txs[i] = g.Send()
+		}
+	}
+	return txs
+}
+
+// negativePower reports a committed validator record with negative power (the next fee distribution calls logger.Fatal).
+func negativePower(w *hist.World) bool {
+	for _, r := range w.ValRecs() {
+		if r.Power < 0 {
+			return true
+		}
+	}
+	return false
+}
+
 // ---- generation ---------------------------------------------------------------------------------
 
 var cfgUpdates = []string{
@@ -598,8 +649,11 @@ func TestC08(t *testing.T) {
 			if blocks >= nblocks {
 				return nil, nil, false
 			}
+			if negativePower(w) && (h.Excluded("STAKE:zero-power-record") || h.Excluded("ALLEGATION_VOTE:accused-not-elected")) {
+				return nil, nil, false // known findings of C11: the next fee distribution would kill the process
+			}
 			blocks++
-			txs := g.DrawTxs(5)
+			txs := applyExclusions(h, g, g.DrawTxs(5))
 			if scripted {
 				if len(script) == 0 && nscript < 3 && w.C.Height >= 2 && u.N(3, "newscript") == 0 {
 					nscript++
